@@ -281,6 +281,9 @@ func (f *c05Fake) parseDynamo(client int, r *http.Request, body []byte) (*c05Req
 			return nil, "PutItem without checkpoint attribute"
 		}
 		q.api, q.key = "put", string(*k.B)
+		if cp.B != nil && len(*cp.B)+len(*k.B)+len("logID")+len("checkpoint") > 400*1024 {
+			return nil, "Item size has exceeded the maximum allowed size"
+		}
 		if rv := in.ReturnValuesOnConditionCheckFailure; rv != nil {
 			switch *rv {
 			case "ALL_OLD":
